@@ -25,7 +25,10 @@ class CallMixin:
         if isinstance(v.ty, (T.Bag, T.Set)):
             return T.scalar(v.ty, nm(v.t, hint))
         if isinstance(v.ty, T.Seq):
-            return T.sv_seq(v.ty.e, v.len, nm(v.at, hint + "_at"))
+            r = T.sv_seq(v.ty.e, v.len, nm(v.at, hint + "_at"))
+            if getattr(v, "uset", None) is not None:     # a duplicate-free listing keeps its member set and position function
+                r.uset, r.uidx = v.uset, v.uidx
+            return r
         return v
 
     # ------------------------------------------------------------------ stores
@@ -219,6 +222,9 @@ class CallMixin:
             return self.as_listing(v.val, p)
         if v.ty in (T.TUP, T.EMPTYLIST) or isinstance(v.ty, (T.Bag, T.Seq)):
             return v
+        if isinstance(v.ty, (T.Map, T.Set)) and self.cur is not None and "listing_positional" in self.cur.options:
+            st = T.Set(v.ty.k) if isinstance(v.ty, T.Map) else v.ty
+            return self.uniq_seq(st, v.dom if isinstance(v.ty, T.Map) else v.t, p)
         if isinstance(v.ty, T.Map):
             return self.bag_of_set(T.Set(v.ty.k), v.dom, p)
         if isinstance(v.ty, T.Set):
@@ -226,6 +232,22 @@ class CallMixin:
         if v.ty in (T.EMPTYDICT, T.EMPTYSET):
             return SV(T.EMPTYLIST)
         raise Unsupported(f"list() of {v.ty}")
+
+    def uniq_seq(self, st, s, p, at=None, idx=None):
+        """A positional list that lists every member of the set s exactly once, in an order that is not modelled (list(d), list(a_set):
+        the iteration order of the container).  The value remembers its member set (`uset`) and position function (`uidx`)."""
+        at = at if at is not None else fresh("listing", z3.ArraySort(T.I, st.e.sort()))
+        if idx is None:
+            f = z3.Function(f"pos!{next(T._fresh)}", st.e.sort(), T.I)
+            idx = lambda x: f(x)      # noqa: E731
+        ln = st.card()(s)
+        j, x = fresh("j", T.I), fresh("x", st.e.sort())
+        self._assume(p, ln >= 0)
+        self._assume(p, z3.ForAll([j], z3.Implies(z3.And(0 <= j, j < ln), z3.And(s[at[j]], idx(at[j]) == j)), patterns=[at[j]]))
+        self._assume(p, z3.ForAll([x], z3.Implies(s[x], z3.And(0 <= idx(x), idx(x) < ln, at[idx(x)] == x)), patterns=[s[x], idx(x)]))
+        v = T.sv_seq(st.e, ln, at)
+        v.uset, v.uidx = s, idx
+        return v
 
     def bag_of_set(self, st, s, p):
         bt = T.Bag(st.e)
@@ -271,6 +293,10 @@ class CallMixin:
             self._assume(p, z3.ForAll([j], z3.Implies(z3.And(0 <= j, j < v.len), s[v.at[j]]), patterns=[v.at[j]]))
             self._assume(p, z3.ForAll([x], z3.Implies(s[x], z3.And(0 <= idx(x), idx(x) < v.len, v.at[idx(x)] == x)), patterns=[s[x]]))
             self._assume(p, z3.And(st.card()(s) <= v.len, st.card()(s) >= 0))
+            # a list is as long as its set exactly when it has no repeated element (pigeonhole; a law of finite sequences, not provable by E-matching)
+            a, b = fresh("a", T.I), fresh("b", T.I)
+            self._assume(p, (st.card()(s) == v.len) == z3.ForAll([a, b], z3.Implies(z3.And(0 <= a, a < b, b < v.len), v.at[a] != v.at[b]),
+                                                                 patterns=[z3.MultiPattern(v.at[a], v.at[b])]))
             return T.scalar(st, s)
         raise Unsupported(f"set() of {v.ty}")
 
@@ -306,14 +332,8 @@ class CallMixin:
         SORTED_K(S) is uninterpreted), listing every member exactly once.  Assumes the elements are mutually comparable."""
         st = T.Set(v.ty.k) if isinstance(v.ty, T.Map) else v.ty
         s = v.dom if isinstance(v.ty, T.Map) else v.t
-        at = TH.sorted_fn(st.e)(s)
         idx = TH.sorted_idx_fn(st.e)
-        ln = st.card()(s)
-        j, x = fresh("j", T.I), fresh("x", st.e.sort())
-        self._assume(p, ln >= 0)
-        self._assume(p, z3.ForAll([j], z3.Implies(z3.And(0 <= j, j < ln), z3.And(s[at[j]], idx(s, at[j]) == j)), patterns=[at[j]]))
-        self._assume(p, z3.ForAll([x], z3.Implies(s[x], z3.And(0 <= idx(s, x), idx(s, x) < ln, at[idx(s, x)] == x)), patterns=[s[x], idx(s, x)]))
-        return T.sv_seq(st.e, ln, at)
+        return self.uniq_seq(st, s, p, at=TH.sorted_fn(st.e)(s), idx=lambda x: idx(s, x))
 
     def bi_max(self, e, p):
         return self._extremum(e, p, True)
@@ -533,9 +553,56 @@ class CallMixin:
                     return T.scalar(T.TUP, TH.tfilter_ne(src.t, x.t))
             raise Unsupported("list comprehension over a node tuple of this shape")
         src = self.as_listing(src, p) if isinstance(src.ty, (T.Map, T.Set)) else src
+        if isinstance(src.ty, T.Seq):
+            return self.seq_comp(src, target, e.elt, ifs, p, e.lineno)
         if not isinstance(src.ty, T.Bag):
             raise Unsupported(f"comprehension over {src.ty}")
         return self.bag_image(src, target, e.elt, ifs, p, e.lineno)
+
+    def seq_comp(self, src, target, elt, ifs, p, lineno):
+        """Comprehension over a positional list: [x for x in L if c(x)] for a duplicate-free L with known member set (the result lists the
+        selected members once each, order not modelled), and [f(x) for x in L] (same length, element-wise)."""
+        et = src.ty.e
+        identity = isinstance(elt, ast.Name) and isinstance(target, ast.Name) and elt.id == target.id
+        uset = getattr(src, "uset", None)
+        member = (lambda xx: uset[xx]) if uset is not None else (lambda xx: z3.BoolVal(True))
+        x, vals, conds, defs = self._bound_eval(target, et, list(ifs) + [elt], p, lineno, member)
+        cond_terms = [self.truth(v, p) for v in vals[:-1]]
+        fx = vals[-1]
+        c = z3.And(cond_terms) if cond_terms else z3.BoolVal(True)
+        if uset is None:
+            # without the member set the per-element facts are only usable position-wise
+            j = fresh("j", T.I)
+            inr = z3.And(0 <= j, j < src.len)
+            sub = lambda term: z3.substitute(term, (x, src.at[j]))      # noqa: E731
+            if ifs or conds:
+                raise Unsupported("filtered or partial comprehension over a positional list without a known member set")
+            for d in defs:
+                self._assume(p, z3.ForAll([j], z3.Implies(inr, sub(d)), patterns=[src.at[j]]) if any(v.eq(x) for v in z3.z3util.get_vars(d)) else d)
+        else:
+            self._close_defs(p, x, defs, uset[x])
+            if conds:
+                unsafe = z3.Or([cc for cc, _ in conds])
+                self._raise_if(p, z3.Exists([x], z3.And(uset[x], unsafe)), conds[0][1], f"comprehension at line {lineno}")
+                self._assume(p, z3.ForAll([x], z3.Implies(uset[x], z3.Not(unsafe)), patterns=[uset[x]]))
+        if identity:
+            if not ifs:
+                return src
+            if uset is None:
+                raise Unsupported("filter over a positional list without a known member set")
+            st = T.Set(et)
+            sel = fresh("selected", st.sort())
+            self._assume(p, z3.ForAll([x], sel[x] == z3.And(uset[x], c), patterns=[sel[x], uset[x]]))
+            self._assume(p, st.card()(sel) <= st.card()(uset))
+            return self.uniq_seq(st, sel, p)
+        if ifs:
+            raise Unsupported("filtered image comprehension over a positional list")
+        if not fx.ty.scalar:
+            raise Unsupported("comprehension element of composite type")
+        at = fresh("mapped", z3.ArraySort(T.I, fx.ty.sort()))
+        j = fresh("j", T.I)
+        self._assume(p, z3.ForAll([j], z3.Implies(z3.And(0 <= j, j < src.len), at[j] == z3.substitute(fx.t, (x, src.at[j]))), patterns=[at[j]]))
+        return T.sv_seq(fx.ty, src.len, at)
 
     def _bound_eval(self, target, src_elem_ty, exprs, p, lineno, member):
         """Evaluate expressions with the comprehension variable bound to a fresh constant x (member(x) assumed).
@@ -650,7 +717,7 @@ class CallMixin:
         if not isinstance(src.ty, T.Bag):
             raise Unsupported(f"dict comprehension over {src.ty}")
         if not (isinstance(e.key, ast.Name) and isinstance(target, ast.Name) and e.key.id == target.id):
-            raise Unsupported("dict comprehension whose key is not the loop variable")
+            return self._dictcomp_keyed(e, target, ifs, src, p)
         et = src.ty.e
         x, vals, conds, defs = self._bound_eval(target, et, list(ifs) + [e.value], p, e.lineno, lambda xx: src.t[xx] >= 1)
         cond_terms = [self.truth(v, p) for v in vals[:-1]]
@@ -668,6 +735,36 @@ class CallMixin:
         self._assume(p, z3.ForAll([x], dom[x] == z3.And(inb, c), patterns=[dom[x], src.t[x]]))
         self._assume(p, z3.ForAll([x], z3.Implies(z3.And(inb, c), val[x] == fx.t), patterns=[val[x]]))
         return T.sv_map(et, fx.ty, dom, val)
+
+    def _dictcomp_keyed(self, e, target, ifs, src, p):
+        """{f(x): g(x) for x in src if c(x)}.  Python keeps the last value written under a key; the encoding states val[f(x)] == g(x) for
+        every selected x, which is only meaningful when f is injective on the selected elements: that is generated as an obligation."""
+        et = src.ty.e
+        x, vals, conds, defs = self._bound_eval(target, et, list(ifs) + [e.key, e.value], p, e.lineno, lambda xx: src.t[xx] >= 1)
+        cond_terms = [self.truth(v, p) for v in vals[:-2]]
+        kx, fx = vals[-2], vals[-1]
+        if not (kx.ty.scalar and kx.ty.sort() is not None and fx.ty.scalar and fx.ty.sort() is not None):
+            raise Unsupported("dict comprehension with composite keys or values")
+        c = z3.And(cond_terms) if cond_terms else z3.BoolVal(True)
+        inb = src.t[x] >= 1
+        self._close_defs(p, x, defs, inb)
+        if conds:
+            unsafe = z3.Or([cc for cc, _ in conds])
+            self._raise_if(p, z3.Exists([x], z3.And(inb, c, unsafe)), conds[0][1], f"comprehension at line {e.lineno}")
+            self._assume(p, z3.ForAll([x], z3.Implies(z3.And(inb, c), z3.Not(unsafe)), patterns=[src.t[x]]))
+        x2 = fresh("c2_" + target.id, et.sort())
+        sel2 = z3.substitute(z3.And(inb, c), (x, x2))
+        k2 = z3.substitute(kx.t, (x, x2))
+        self.oblige(f"dictcomp@{e.lineno}", "keys are distinct for distinct elements", p,
+                    z3.ForAll([x, x2], z3.Implies(z3.And(inb, c, sel2, kx.t == k2), x == x2), patterns=[z3.MultiPattern(src.t[x], src.t[x2])]))
+        dom = fresh("dk_dom", z3.ArraySort(kx.ty.sort(), T.B))
+        val = fresh("dk_val", z3.ArraySort(kx.ty.sort(), fx.ty.sort()))
+        y = fresh("y", kx.ty.sort())
+        pre = z3.Function(f"dkpre!{next(T._fresh)}", kx.ty.sort(), et.sort())
+        self._assume(p, z3.ForAll([x], z3.Implies(z3.And(inb, c), z3.And(dom[kx.t], val[kx.t] == fx.t)), patterns=[src.t[x]]))
+        self._assume(p, z3.ForAll([y], z3.Implies(dom[y], z3.And(src.t[pre(y)] >= 1, z3.substitute(c, (x, pre(y))), z3.substitute(kx.t, (x, pre(y))) == y)),
+                                  patterns=[dom[y]]))
+        return T.sv_map(kx.ty, fx.ty, dom, val)
 
     def ev_SetComp(self, e, p):
         if not self.spec_mode:
